@@ -259,6 +259,21 @@ fn span_class(s: &Span) -> &'static str {
     }
 }
 
+/// Timestamp +/- span (only hours and smaller units are accepted) and +/- duration. Not part of C08's wording
+/// (which speaks about civil types): scope "beyond".
+fn ts_add(t: jiff::Timestamp, s: Span, d: SignedDuration, cls: &str) -> Value {
+    let j = |r: Result<Result<jiff::Timestamp, jiff::Error>, String>| match r {
+        Ok(Ok(t)) => json!({"st":"ok","rsec":big(t.as_second() as i128),"rns":t.subsec_nanosecond()}),
+        Ok(Err(_)) => json!({"st":"err","rsec":big(0),"rns":0}),
+        Err(_) => json!({"st":"panic","rsec":big(0),"rns":0}),
+    };
+    let (dsec, dns) = jdur(d);
+    json!({"op":"ts_add","cls":cls,"scope":"beyond","sec":big(t.as_second() as i128),"ns":t.subsec_nanosecond(),"span":jspan(&s),
+           "dsec":dsec,"dns":dns,
+           "add":j(guard(|| t.checked_add(s))),"sub":j(guard(|| t.checked_sub(s))),"sat":j(guard(|| t.saturating_add(s))),
+           "dadd":j(guard(|| t.checked_add(d))),"dsub":j(guard(|| t.checked_sub(d))),"dsat":j(guard(|| t.saturating_add(d)))})
+}
+
 pub fn run_c08(a: &Args) {
     let mut out = Out::new(&a.out, "c08", 12_000);
     let mut rng = Rng::new(a.seed, 8);
@@ -341,6 +356,24 @@ pub fn run_c08(a: &Args) {
             _ => gen_span(&mut rng, &all),
         };
         out.emit(series_ev(DateTime::from_parts(d, t), s, 6, "series"));
+    }
+    // Timestamp arithmetic (scope beyond)
+    for k in 0..(if quick { 3000 } else { 60_000 }) {
+        let ns = match k % 4 {
+            0 => rng.range128(jiff::Timestamp::MIN.as_nanosecond(), jiff::Timestamp::MAX.as_nanosecond()),
+            1 => rng.range128(-1_000_000_000_000, 1_000_000_000_000),
+            2 => jiff::Timestamp::MAX.as_nanosecond() - rng.range128(0, 100_000_000_000_000),
+            _ => jiff::Timestamp::MIN.as_nanosecond() + rng.range128(0, 100_000_000_000_000),
+        };
+        let t = jiff::Timestamp::from_nanosecond(ns).unwrap();
+        let sp = if k % 3 == 0 { gen_span(&mut rng, &all) } else { gen_span(&mut rng, &tim) };
+        let d = match k % 5 {
+            0 => SignedDuration::MAX,
+            1 => SignedDuration::MIN,
+            _ => SignedDuration::new(rng.range(-400_000_000_000, 400_000_000_000), rng.range(0, 999_999_999) as i32),
+        };
+        let d = if d.as_secs() < 0 && d.subsec_nanos() > 0 { -d } else { d };
+        out.emit(ts_add(t, sp, d, if k % 3 == 0 { "any-units" } else { "time-units" }));
     }
     out.finish();
 }
